@@ -20,6 +20,7 @@ func init() {
 			{Pkg: wtxmgrPkg, Fn: "ZzC01U1L3", Tiers: "qt", Reach: []string{"c01-end", "reorg", "repeat"}, Bound: "universe U1 (chain A->B->C, 5 outputs, 4 credits), every chain-consistent history of 3 events; amounts, minConf, syncHeight, maturity symbolic"},
 			{Pkg: wtxmgrPkg, Fn: "ZzC12MinedL2", Tiers: "qt", Reach: []string{"c12-end", "leased"}, Bound: "the lease clause of the balance: C12's lease harness (2 events, symbolic clock, minConf and syncHeight) - label c12-balance is C01's balance equation with leases"},
 			{Pkg: wtxmgrPkg, Fn: "ZzC01U7L3", Tiers: "qt", Reach: []string{"c01-end", "reorg"}, Bound: "U7 (coinbase with a foreign output 0 and a credit at index 1, a known spender of each), 3 events"},
+			{Pkg: wtxmgrPkg, Fn: "ZzC01U9P3L2", Tiers: "qt", Reach: []string{"c01-end", "reorg"}, Bound: "U9 (A with two credits; B spends A:0; its replacement B' spends A:0 and A:1; M spends A:1) after the fixed preamble 'A confirmed, B seen, B' seen' (two conflicting unconfirmed spenders of one credit known at once), then every history of 2 events"},
 			{Pkg: wtxmgrPkg, Fn: "ZzC01U8L3", Tiers: "t", Reach: []string{"c01-end"}, Bound: "U8 (P pays wallet and stranger, R spends the stranger's output back to the wallet, P' conflicts with P), 3 events"},
 			{Pkg: wtxmgrPkg, Fn: "ZzC01U3L3", Tiers: "t", Reach: []string{"c01-end", "reorg"}, Bound: "U3 (conflicting spenders), 3 events"},
 			{Pkg: wtxmgrPkg, Fn: "ZzC01U4L3", Tiers: "t", Reach: []string{"c01-end", "reorg"}, Bound: "U4 (coinbase and its descendants), 3 events"},
@@ -36,6 +37,7 @@ func init() {
 			{Pkg: wtxmgrPkg, Fn: "ZzC02U4L3", Tiers: "qt", Reach: []string{"c02-end", "reorg"}, Bound: "U4 (coinbase CB, S spends CB:0, S2 spends S:0), histories of 3 events"},
 			{Pkg: wtxmgrPkg, Fn: "ZzC02U7L3", Tiers: "qt", Reach: []string{"c02-end", "reorg"}, Bound: "U7 (coinbase: foreign output 0, credit at index 1, spenders of both), 3 events"},
 			{Pkg: wtxmgrPkg, Fn: "ZzC02U8L3", Tiers: "qt", Reach: []string{"c02-end", "reorg"}, Bound: "U8 (descendant through a non-credit output; conflicting P'), 3 events"},
+			{Pkg: wtxmgrPkg, Fn: "ZzC02U9P3L2", Tiers: "t", Reach: []string{"c02-end", "reorg"}, Bound: "U9 after the preamble 'A confirmed, B and conflicting B' both unconfirmed', 2 events"},
 			{Pkg: wtxmgrPkg, Fn: "ZzC02U1zL3", Tiers: "t", Reach: []string{"c02-end"}, Bound: "U1 with amounts of the first transaction allowed to be zero, 3 events"},
 			{Pkg: wtxmgrPkg, Fn: "ZzC02U1L3", Tiers: "t", Reach: []string{"c02-end"}, Bound: "U1 chain, 3 events"},
 			{Pkg: wtxmgrPkg, Fn: "ZzC02U3L4", Tiers: "t", Reach: []string{"c02-end"}, Bound: "U3, 4 events"},
@@ -52,6 +54,7 @@ func init() {
 			{Pkg: wtxmgrPkg, Fn: "ZzC13U6L3", Tiers: "qt", Reach: []string{"c13-end", "range-backwards"}, Bound: "U6 (credits with a non-credit output between, debit-only spender), 3 events"},
 			{Pkg: wtxmgrPkg, Fn: "ZzC13U8L3", Tiers: "qt", Reach: []string{"c13-end"}, Bound: "U8 (descendant through a non-credit output; conflicting P'), 3 events"},
 			{Pkg: wtxmgrPkg, Fn: "ZzC13U1zL3", Tiers: "qt", Reach: []string{"c13-end", "reorg"}, Bound: "U1 with zero-value credits allowed (amounts of the first transaction in [0, max]), 3 events"},
+			{Pkg: wtxmgrPkg, Fn: "ZzC13U9P3L2", Tiers: "qt", Reach: []string{"c13-end", "reorg"}, Bound: "U9 after the preamble 'A confirmed, B and conflicting B' both unconfirmed', 2 events"},
 			{Pkg: wtxmgrPkg, Fn: "ZzC13U7L3", Tiers: "t", Reach: []string{"c13-end"}, Bound: "U7 coinbase with foreign output, 3 events"},
 			{Pkg: wtxmgrPkg, Fn: "ZzC13U3L3", Tiers: "t", Reach: []string{"c13-end"}, Bound: "U3 conflicts, 3 events"},
 			{Pkg: wtxmgrPkg, Fn: "ZzC13U4L3", Tiers: "t", Reach: []string{"c13-end"}, Bound: "U4 coinbase, 3 events"},
@@ -167,7 +170,7 @@ func init() {
 			{Pkg: walletPkg, Fn: "ZzC16HorizonW2", Tiers: "qt", NoNative: true, Reach: []string{"c16-end", "invalid-child", "jump"}, Bound: "window 2, 2 rounds"},
 			{Pkg: walletPkg, Fn: "ZzC16HorizonW3", Tiers: "qt", NoNative: true, Reach: []string{"c16-end", "invalid-child", "jump"}, Bound: "window 3, 2 rounds"},
 			{Pkg: walletPkg, Fn: "ZzC16HorizonResume", Tiers: "qt", NoNative: true, Reach: []string{"c16-end"}, Bound: "window 2, resumed recovery starting at index 7"},
-			{Pkg: walletPkg, Fn: "ZzC16RecoveryW2B2", Tiers: "qt", Reach: []string{"c16-end", "resumed", "spend-with-change", "two-receipts-in-a-block"}, Bound: "the real recovery loop (Wallet.recovery, RecoveryManager incl. Resurrect, real address manager, transaction store and chain.BlockFilterer) on a wallet restored from the seed, window 2: every chain of 2 blocks whose content is chosen from {external receipt, internal receipt, two external receipts, spend of an earlier output with internal change}, every index inside the window, optionally a first recovery session after block 1 (the final run resumes)"},
+			{Pkg: walletPkg, Fn: "ZzC16RecoveryW2B2", Tiers: "qt", Reach: []string{"c16-end", "resumed", "spend-with-change", "two-receipts-in-a-block", "receipt-spent-in-the-same-block", "spend-without-change"}, Bound: "the real recovery loop (Wallet.recovery, RecoveryManager incl. Resurrect, real address manager, transaction store and chain.BlockFilterer) on a wallet restored from the seed, window 2: every chain of 2 blocks whose content is chosen from {external receipt, internal receipt, two external receipts, spend of an earlier output with or without internal change, a receipt swept out of the wallet later in the same block}, every index inside the window, optionally a first recovery session after block 1 (the final run resumes)"},
 			{Pkg: walletPkg, Fn: "ZzC16RecoveryW2B3", Tiers: "t", Reach: []string{"c16-end", "resumed", "spend-with-change"}, Bound: "window 2, chains of 3 blocks, a session may end after each of the first two"},
 			{Pkg: walletPkg, Fn: "ZzC16RecoveryW3B3", Tiers: "t", Reach: []string{"c16-end", "resumed"}, Bound: "window 3, chains of 3 blocks"},
 			{Pkg: walletPkg, Fn: "ZzC16HorizonW3R3", Tiers: "t", NoNative: true, Reach: []string{"c16-end"}, Bound: "window 3, 3 rounds"},
@@ -218,6 +221,8 @@ func init() {
 			{Pkg: waddrmgrPkg, Fn: "ZzC05LockImports", Tiers: "qt", Reach: []string{"c05-end", "imports"}, Bound: "after importing a private key, a P2SH script and a secret witness script"},
 			{Pkg: waddrmgrPkg, Fn: "ZzC05LockReloaded", Tiers: "qt", Reach: []string{"c05-end", "last-address-checked"}, Bound: "restart, unlock, account row loaded while unlocked (its cached last addresses carry private keys), then Lock"},
 			{Pkg: waddrmgrPkg, Fn: "ZzC05LockWatchOnlyAccount", Tiers: "qt", Reach: []string{"c05-end", "watch-only-account-loaded"}, Bound: "seeded manager holding an imported extended-public-key account with an issued address, then Lock"},
+			{Pkg: waddrmgrPkg, Fn: "ZzC05LockUntouchedScope", Tiers: "qt", Reach: []string{"c05-end", "imports-into-untouched-scope"}, Bound: "restart, unlock, private key and secret script imported into a key scope in which no account has been loaded in this session, then Lock"},
+			{Pkg: waddrmgrPkg, Fn: "ZzC05LockInvalidated", Tiers: "qt", Reach: []string{"c05-end", "account-cache-invalidated"}, Bound: "cached derivation, then the account dropped from the account cache (InvalidateAccountCache), then Lock"},
 			{Pkg: waddrmgrPkg, Fn: "ZzC05FailedUnlock", Tiers: "qt", Reach: []string{"c05-end"}, Bound: "Unlock with the right passphrase failing after the master and crypto keys were decrypted (damaged account key): locked and wiped afterwards"},
 			{Pkg: waddrmgrPkg, Fn: "ZzC05GuessWatchOnlyAccount", Tiers: "qt", Reach: []string{"c05-end", "right-passphrase", "wrong-passphrase", "watch-only-account-loaded"}, Bound: "symbolic 8-byte passphrase guess on a manager holding an imported watch-only account"},
 			{Pkg: waddrmgrPkg, Fn: "ZzC05GuessFresh", Tiers: "qt", Reach: []string{"c05-end", "right-passphrase", "wrong-passphrase"}, Bound: "Unlock with a fully symbolic 8-byte passphrase (solver decides equality with the real one)"},
@@ -261,7 +266,7 @@ func init() {
 	reg(&propDef{
 		ID: "C15",
 		Runs: []hrun{
-			{Pkg: walletPkg, Fn: "ZzC15L2", Tiers: "qt", Sched: true, Reach: []string{"c15-end", "reorg-1", "reorg-2", "duplicate-disconnect", "stale-disconnect", "wallet-tx-confirmed", "wallet-tx-unconfirmed-by-reorg"}, Bound: "real handleChainNotifications goroutine; base height 10001; 2 evolutions from {extend, extend with wallet tx, reorg depth 1, reorg depth 2, duplicate disconnect, stale disconnect}"},
+			{Pkg: walletPkg, Fn: "ZzC15L2", Tiers: "qt", Sched: true, Reach: []string{"c15-end", "reorg-1", "reorg-2", "duplicate-disconnect", "stale-disconnect", "wallet-tx-confirmed", "wallet-tx-unconfirmed-by-reorg", "reorg-started-during-rescan"}, Bound: "real handleChainNotifications goroutine; base height 10001; 2 evolutions from {extend, extend with wallet tx, reorg depth 1, reorg depth 2, duplicate disconnect, stale disconnect, reorg depth 2 whose first disconnect arrives while a rescan is running (missed by the wallet) and whose second one is for a block below the wallet's tip}"},
 			{Pkg: walletPkg, Fn: "ZzC15Startup1", Tiers: "qt", Reach: []string{"c15-end", "wallet-tx-orphaned", "birthday-block-orphaned"}, Bound: "reorg of depth 1 while stopped (new branch same length or longer), wallet tx in any of 4 blocks, birthday block any of the 6 blocks the wallet knew (possibly orphaned itself), then syncWithChain"},
 			{Pkg: walletPkg, Fn: "ZzC15Startup2", Tiers: "qt", Reach: []string{"c15-end", "wallet-tx-orphaned", "birthday-block-orphaned"}, Bound: "depth 2 while stopped"},
 			{Pkg: walletPkg, Fn: "ZzC15Startup3", Tiers: "qt", Reach: []string{"c15-end", "wallet-tx-orphaned", "birthday-block-orphaned"}, Bound: "depth 3 while stopped"},
@@ -279,6 +284,7 @@ func init() {
 			{Pkg: walletPkg, Fn: "ZzC20PublishChained", Tiers: "qt", Reach: []string{"c20-end", "chained", "failed"}, Bound: "same with an earlier unconfirmed send whose change is spent"},
 			{Pkg: walletPkg, Fn: "ZzC20Resend", Tiers: "qt", Reach: []string{"c20-end", "resent", "resend-rejected"}, Bound: "unconfirmed parent and child; resendUnminedTxs with acceptance or rejection of the parent"},
 			{Pkg: walletPkg, Fn: "ZzC20ResendMany", Tiers: "qt", Reach: []string{"c20-end", "some-rejected", "classified-rejection"}, Bound: "three unconfirmed transactions (parent, child, independent one); on rebroadcast each is accepted or rejected independently, the reject code symbolic over every reason the chain package knows"},
+		{Pkg: walletPkg, Fn: "ZzC20ResendIncoming", Tiers: "qt", Reach: []string{"c20-end", "resent", "some-rejected", "classified-rejection"}, Bound: "four unconfirmed wallet transactions: an incoming payment R (no wallet inputs), C spending R's output, a send X whose payment goes to a stranger, S spending that stranger's output back to the wallet (linked to X only through a non-credit output); on rebroadcast R and X are accepted or rejected independently (symbolic reject code)"},
 		},
 		Assume:  append([]string{"transactions are built by the harness (unsigned): publishing does not verify signatures"}, walletAssume...),
 		Outside: "longer histories, several simultaneous unconfirmed chains, leases on the inputs, the real rpc error mapping of each backend (chain.MapRPCErr)",
